@@ -201,7 +201,7 @@ def generate(rng, tier, run):
     for kind, region, data in images(img, layout, rng, quota):
         path = rng.choice(["open"] * 6 + ["vfs"] * 5 + ["cli"]) if kind != "intact" else "all"
         items.append([kind, region, None if data is None else base64.b64encode(data).decode(), path])
-    root = os.path.join(SCRATCH, "r%d_%d" % (os.getpid(), run))
+    root = os.path.join(SCRATCH, "r%07d_%d" % (os.getpid(), run))
     case = {"props": props, "entries": [[n, base64.b64encode(d).decode()] for n, d in entries], "trailer": trailer,
             "size": len(img), "root": root, "items": items}
     B = 120
